@@ -22,7 +22,7 @@ MANIFEST = {
              'shipped policies"). Behaviour with assert_limits = false for RESGreedy relies on a panic helper and is not claimed.'),
 }
 EXPLANATION = 'Per-unit share terms (arm tables) of the distribution functions, with sign and bound obligations per arm.'
-RULES = ['C10-1.conservation', 'C10-2.proportional', 'C10-3.resgreedy', 'C10-4.regen', 'C10-5.dynbrake', 'C10-6.coverage', 'C10-7.unit', 'C10-8.limits']
+RULES = ['C10-1.conservation', 'C10-2.proportional', 'C10-3.resgreedy', 'C10-4.regen', 'C10-5.dynbrake', 'C10-6.coverage', 'C10-7.unit', 'C10-8.limits', 'C10-9.request']
 ASSUMPTIONS = ['unit limits >= 0', 'consist limits > 0 where divided by', 'drivetrain rating >= regeneration share of the unit']
 
 A = [(r'pwr_out_max$', 'nonneg'), (r'pwr_regen_max$', 'nonneg'), (r'pwr_out_max_reves$', 'pos'), (r'pwr_out_max_non_reves$', 'pos'),
@@ -60,6 +60,14 @@ def run(ctx):
     from .common import RuleProxy
     from . import C09
     C09.chains(RuleProxy(ctx, {'C09-3.chain': 'C10-8.limits'}))
+    # the share a unit was assigned is the power its drivetrain is asked for: handed down unchanged from the consist loop to the
+    # electric drivetrain of every powertrain type (the consist's own split and the shaft power of the engine are other quantities)
+    from .common import value_passthrough
+    value_passthrough(ctx, 'C10-9.request', 'pwr_out_req', derived={
+        ('Consist::solve_energy_consumption', 'Locomotive::solve_energy_consumption'),        # the split itself (C10-1 .. C10-5)
+        ('ConventionalLoco::solve_energy_consumption', 'FuelConverter::solve_energy_consumption'),   # engine shaft power (C01 / C08 relations)
+        ('HybridLoco::solve_energy_consumption', 'FuelConverter::solve_energy_consumption'),
+    }, floor=8)
 
 
 def _unit(lvl, *fields):
